@@ -156,7 +156,12 @@ func (m *metaFile) StoreHardState(hs *raftpb.HardState) error {
 	if len(buf) >= snapshotIndex-hardStateOffset {
 		return fmt.Errorf("invalid HardState")
 	}
-	if err = m.meta.WriteSlice(0, 0, hardStateOffset, buf, true, false); err != nil {
+	// [len:4][bytes] go out in ONE positioned write: a process that dies during the update leaves the old record or
+	// the new one, never a length that belongs to other bytes.
+	rec := make([]byte, unit32Size, unit32Size+len(buf))
+	binary.BigEndian.PutUint32(rec, uint32(len(buf)))
+	rec = append(rec, buf...)
+	if _, err = m.meta.WriteAt(0, hardStateOffset, rec, true); err != nil {
 		return err
 	}
 	return nil
@@ -183,15 +188,20 @@ func (m *metaFile) StoreSnapshot(snap *raftpb.Snapshot) error {
 	if !IsValidSnapshot(*snap) {
 		return nil
 	}
-	m.SetUint(SnapshotIndex, snap.Metadata.Index)
-	m.SetUint(SnapshotTerm, snap.Metadata.Term)
-
 	buf, err := snap.Marshal()
 	if err != nil {
 		return errors.Wrapf(err, "cannot marshal snapshot")
 	}
 
-	if err = m.meta.WriteSlice(0, 0, snapshotOffset, buf, true, false); err != nil {
+	// SnapshotIndex, SnapshotTerm and the snapshot record [len:4][bytes] are adjacent in the file: they go out in ONE
+	// positioned write, so the index/term words never disagree with the stored snapshot and the length always
+	// belongs to the bytes after it. A failed write is returned to the caller (who retries) instead of a panic.
+	rec := make([]byte, 2*unit64Size+unit32Size, 2*unit64Size+unit32Size+len(buf))
+	binary.BigEndian.PutUint64(rec, snap.Metadata.Index)
+	binary.BigEndian.PutUint64(rec[unit64Size:], snap.Metadata.Term)
+	binary.BigEndian.PutUint32(rec[2*unit64Size:], uint32(len(buf)))
+	rec = append(rec, buf...)
+	if _, err = m.meta.WriteAt(0, snapshotIndex, rec, true); err != nil {
 		return err
 	}
 	return nil
